@@ -67,3 +67,66 @@ package desync
 //@   pure
 //@ func (pb ProgressBar) Set(n) (r0)
 //@   pure
+
+// ---------------------------------------------------------------------------- chunks (C03, C06)
+
+//@ spec func convPlain(cv Converters, b Bytes) Bytes
+//# the plain bytes obtained by applying the converter layers backwards (uninterpreted function)
+//@ spec func plain(c *Chunk) Bytes = ite(len(c.data) > 0, bytes(c.data), convPlain(c.converters, bytes(c.storage)))
+//@ spec func hasPayload(c *Chunk) bool = len(c.data) > 0 || c.idCalculated
+
+//@ func (s Converters) fromStorage
+//@   trusted
+//@   pure
+//@   ensures err == nil ==> bytes(r0) == convPlain(s, bytes(in))
+
+//@ func (c *Chunk) Data
+//@   prop C03
+//@   modifies c.data
+//@   ensures err == nil ==> bytes(r0) == old(plain(c)) && plain(c) == old(plain(c))
+//@   ensures len(old(c.data)) > 0 ==> err == nil && c.data == old(c.data)
+//@   ensures len(old(c.data)) == 0 && len(old(c.storage)) == 0 ==> err != nil && c.data == old(c.data)
+
+//@ func (c *Chunk) ID
+//@   prop C03
+//@   modifies c.data, c.id, c.idCalculated
+//@   ensures old(c.idCalculated) ==> r0 == old(c.id) && c.idCalculated && c.id == old(c.id) && c.data == old(c.data)
+//@   ensures !old(c.idCalculated) ==> (r0 == H(old(plain(c))) && c.idCalculated && c.id == r0 && plain(c) == old(plain(c))) || (r0 == ChunkID{} && !c.idCalculated && len(old(c.data)) == 0)
+//@   ensures len(old(c.data)) > 0 ==> c.data == old(c.data) && c.idCalculated && c.id == r0
+//@   ensures !old(c.idCalculated) && len(old(c.data)) == 0 && len(old(c.storage)) == 0 ==> r0 == ChunkID{} && !c.idCalculated && c.data == old(c.data)
+
+//@ func NewChunk
+//@   prop C03
+//@   ensures r0 != nil && r0.data == b && !r0.idCalculated
+
+//@ func NewChunkWithID
+//@   prop C03
+//@   ensures err == nil ==> r0 != nil && r0.idCalculated && r0.id == id && r0.data == b
+//@   ensures err == nil && !skipVerify ==> H(plain(r0)) == id && len(b) > 0 && H(bytes(b)) == id
+
+//@ func NewChunkFromStorage
+//@   prop C03
+//@   ensures err == nil ==> r0 != nil && r0.idCalculated && r0.id == id
+//@   ensures err == nil && !skipVerify ==> H(plain(r0)) == id
+
+// ---------------------------------------------------------------------------- store interfaces
+
+//@ ghost field $stored map[ChunkID]bool
+//# s.$stored[id]: store s durably holds a chunk under id (monotone within one operation)
+//@ ghost field $skip bool
+//# s.$skip: verification is disabled in s or in a store beneath it
+
+//@ func (s Store) GetChunk(id) (c, err)
+//@   pure
+//@   ensures err == nil ==> c != nil && (H(plain(c)) == id || s.$skip)
+
+//@ func (s Store) HasChunk(id) (has, err)
+//@   pure
+//@   ensures err == nil && has ==> s.$stored[id]
+
+//@ func (s WriteStore) StoreChunk(c) (err)
+//@   pure
+//@   modifies s.$stored
+//@   ensures forall i ChunkID :: old(s.$stored[i]) ==> s.$stored[i]
+//@   ensures err == nil && old(c.idCalculated) ==> s.$stored[old(c.id)]
+//@   ensures err == nil && !old(c.idCalculated) && len(old(c.data)) > 0 ==> s.$stored[H(bytes(old(c.data)))]
